@@ -6,7 +6,7 @@
 p="$(readlink -f "$1")"; shift
 wt=$(mktemp -d /tmp/mutwt.XXXXXX); rmdir "$wt"
 git -C /repo worktree add --detach "$wt" HEAD >/dev/null 2>&1 || { echo "cannot create worktree"; exit 2; }
-trap 'git -C /repo worktree remove --force "$wt" >/dev/null 2>&1; rm -rf "$wt"' EXIT
+trap 'git -C /repo worktree remove --force "$wt" >/dev/null 2>&1; rm -rf "$wt" "/verif/.work/alt-$(basename $wt)"' EXIT
 git -C "$wt" apply "$p" || { echo "patch does not apply"; exit 2; }
 rc=0
 for id in "$@"; do
